@@ -5,6 +5,7 @@ import (
 	"bytes"
 	"encoding/json"
 	"fmt"
+	"io"
 	"io/ioutil"
 	"net"
 	"net/http"
@@ -159,10 +160,21 @@ func childMain() {
 		var o Obs
 		switch {
 		case it.Kind == "http":
-			req, err := http.NewRequest(it.Method, "http://"+base+it.Path, bytes.NewReader(it.Body))
+			var body io.Reader = bytes.NewReader(it.Body)
+			if it.Chunked {
+				body = ioutil.NopCloser(bytes.NewReader(it.Body)) // length unknown to net/http
+			}
+			req, err := http.NewRequest(it.Method, "http://"+base+it.Path, body)
 			if err != nil {
 				o.HTTPErr = "request: " + err.Error()
 				break
+			}
+			if it.Chunked {
+				req.ContentLength = -1
+				req.TransferEncoding = []string{"chunked"}
+			}
+			if it.CType != "" {
+				req.Header.Set("Content-Type", it.CType)
 			}
 			resp, err := hc.Do(req)
 			if err != nil {
